@@ -323,6 +323,11 @@ def _armed(plan):
                 out.append({'id': ident, 'step': 'main', 'kind': 'exit_nonzero', 'real': True})
     for ph in casegen.INSTR_PHASES:
         for item in plan['case'].get(ph) or []:
+            if item.get('mfail'):
+                # a real instruction whose main step fails by itself (e.g. `cd` to a directory that does not exist); it
+                # leaves no event: it is taken to have fired when nothing else did (plans arm nothing else beside it)
+                out.append({'id': item['id'], 'step': 'main', 'kind': 'real_hard_error', 'real': True,
+                            'by_position': True})
             if item.get('vfail'):
                 out.append({'id': item['id'], 'step': item['vfail']['step'], 'kind': item['vfail']['kind'], 'real': True,
                             'by_outcome': True})
@@ -355,6 +360,12 @@ def _fired(plan, hist):
             if f.get('by_outcome') and _same_location(plan['case'], plan['status'], f['id'], res):
                 last = max([e['seq'] for e in hist['trace']] + [s_['seq'] for s_ in hist['spawns']] + [0])
                 out.append({'id': f['id'], 'step': f['step'], 'kind': f['kind'], 'seq': last + 1, 'real': True})
+    if not out and plan.get('status') != 'SKIP':
+        for f in _armed(plan):
+            if f.get('by_position'):
+                last = max([e['seq'] for e in hist['trace']] + [s_['seq'] for s_ in hist['spawns']] + [0])
+                out.append({'id': f['id'], 'step': f['step'], 'kind': f['kind'], 'seq': last + 1, 'real': True})
+                break
     out.sort(key=lambda f: f['seq'])
     return out
 
